@@ -10,7 +10,8 @@ def main():
     cfg = props.PROPS[prop]
     cands = cfg["candidates"]("thorough")
     quick_ids = {c["id"] for c in cfg["candidates"]("quick")}
-    tasks = [runner.make_task(c, cfg["defaults"]) for c in cands]
+    defaults = dict(cfg["defaults"]); defaults.update(cfg.get("thorough_defaults", {}))
+    tasks = [runner.make_task(c, defaults) for c in cands]
     comp = driver.Compiler()
     res = {}
     t0 = time.time()
